@@ -547,7 +547,11 @@ def stub_exp(it, x):
     ctx = it.ctx
     if ctx.concrete is not None:
         # concrete replay of an interpreter path: the value chosen by the model for this call
-        return ctx.fresh('e')
+        if isinstance(x, (int, Fraction)) and x == 0:
+            return Fraction(1)
+        e = ctx.fresh('e')
+        it.events.append(('exp', x, e))
+        return e
     if isinstance(x, (int, Fraction)) and x == 0:
         return Fraction(1)
     e = ctx.fresh('e')
